@@ -1,5 +1,5 @@
 """Texts of MANIFEST.json per property (level claimed, trusted base, technique)."""
-HOOK_COMMITS = []
+HOOK_COMMITS = ["a73c8bf60"]
 
 # properties without a registered check yet: reason shown in MANIFEST.not_applicable until their check lands
 _PENDING = "check under construction in this round (see DESIGN.md section 5); not claimed yet"
